@@ -4,7 +4,9 @@
    Corr.v on every run. *)
 From Coq Require Import Floats Reals List Lia Lra.
 From ADV Require Import Base.Num C05.Model C05.Spec C05.ProofsBase C05.ProofsChol C05.ProofsLdl
-                        C05.ProofsHouse C05.ProofsGivens C05.Refuted.
+                        C05.ProofsHouse C05.ProofsGivens C05.Refuted
+                        C05.ProofsHouse2 C05.ProofsBlock C05.ProofsTrace C05.ProofsHess C05.ProofsGS
+                        C05.ProofsLdl2 C05.ProofsChol2 C05.ProofsTridiag C05.ProofsBidiag.
 Import ListNotations.
 Open Scope R_scope.
 
@@ -58,17 +60,55 @@ Theorem cholesky_ldl_forcepd_correct :
   (forall j, (j < n)%nat -> G A j j <= LDLt n L D j j).
 Proof. exact cholesky_ldl_forcepd_sound. Qed.
 
-(* "= LDL when the bounds are inactive": proved for the pivot choice of one column
-   (c_jj > 0, c_jj >= delta, c_jj >= (theta_j/beta)^2  ==>  the forced pivot is the
-   LDL pivot); MISSING: lifting through the column loop to equality of the two
-   returned pairs (the loop is the same function [ldl_gen] of the pivot choice). *)
-Theorem forcepd_equals_ldl_when_inactive_partial :
-  forall (n : nat) (beta delta : R) (j : nat) (c : R) (below : list R),
-  0 < c -> delta <= c ->
-  (j <> (n - 1)%nat ->
-   (fold_left (upd_max XR) below (-1) / beta) * (fold_left (upd_max XR) below (-1) / beta) <= c) ->
-  pick_fpd XR n beta delta j c below = pick_ldl XR j c below.
-Proof. exact pick_fpd_inactive. Qed.
+(* "= LDL when A is sufficiently positive definite", lifted through the column loop:
+   if plain LDL succeeds with (L, D) and the Gill-Murray-Wright bounds are inactive on
+   that result (every pivot D_jj >= delta and >= (c_ij / beta)^2 for the column entries
+   c_ij = L_ij D_jj below it), the forced-PD variant returns the SAME pair.  No
+   assumption on beta or on symmetry is needed. *)
+Theorem forcepd_equals_ldl_when_inactive :
+  forall (A L D : rmat) (n : nat) (bfloor delta : R),
+  dims n n A ->
+  cholesky_ldl XR A = Some (L, D) ->
+  (forall j, (j < n)%nat -> delta <= G D j j) ->
+  (forall j i, (j < i < n)%nat ->
+     (G L i j * G D j j / fpd_beta XR bfloor A) * (G L i j * G D j j / fpd_beta XR bfloor A) <= G D j j) ->
+  cholesky_ldl_forcepd XR bfloor delta A = Some (L, D).
+Proof. exact C05.ProofsLdl2.forcepd_equals_ldl_when_inactive. Qed.
+
+(* Cholesky completeness: on every positive definite A (A = Gm Gm^T, Gm lower triangular
+   with positive diagonal) the routine succeeds and returns exactly that factor; hence an
+   error means A is not positive definite; and at the first failing row i the rows
+   0..i-1 were factored (L' L'^T = leading block) and the pivot a_ii - |solved row|^2, the
+   Schur complement of the leading block, is negative. *)
+Theorem cholesky_complete :
+  forall (A Gm : rmat) (n : nat),
+  dims n n A -> has_cholesky_factor n A Gm -> cholesky XR A = Some Gm.
+Proof. exact C05.ProofsChol2.cholesky_complete. Qed.
+
+Theorem cholesky_fast_complete :
+  forall (A Gm : rmat) (n : nat),
+  dims n n A -> has_cholesky_factor n A Gm -> cholesky_fast XR A = Some Gm.
+Proof. exact C05.ProofsChol2.cholesky_fast_complete. Qed.
+
+Theorem cholesky_error_implies_not_pd :
+  forall (A : rmat) (n : nat),
+  dims n n A -> cholesky XR A = None -> ~ exists Gm, has_cholesky_factor n A Gm.
+Proof. exact C05.ProofsChol2.cholesky_error_implies_not_pd. Qed.
+
+Theorem cholesky_error_first_negative_pivot :
+  forall (A : rmat) (n : nat),
+  dims n n A -> cholesky XR A = None ->
+  exists (i : nat) (L' : rmat) (cur : list R),
+    (i < n)%nat /\
+    chol_rows XR sqrt n [] (firstn i A) = Some L' /\
+    length L' = i /\ length cur = i /\
+    (forall q, (q < i)%nat ->
+       nth q cur 0 = (G A i q - sum_n (fun k => nth k cur 0 * G L' q k) q) / G L' q q) /\
+    G A i i - sum_n (fun k => nth k cur 0 * nth k cur 0) i < 0 /\
+    (symmetric n A -> (forall p, (p < i)%nat -> G L' p p <> 0) ->
+       lower_triangular L' /\
+       forall p q, (p < i)%nat -> (q < i)%nat -> LLt i L' p q = G A p q).
+Proof. exact C05.ProofsChol2.cholesky_error_first_negative_pivot. Qed.
 
 (* 4. Householder.  The reflector I - beta v v^T is symmetric, and orthogonal /
       involutive as soon as beta = 0 or beta v^T v = 2 — for every v and n. *)
@@ -92,11 +132,9 @@ Theorem householder_run_as_coded :
   else (h_beta x0 sigma, map (fun y => y / h_nu0 x0 sigma) (h_nu0 x0 sigma :: xt)).
 Proof. exact house_as_coded. Qed.
 
-(* ... and these scalars satisfy beta = 2/(nu^T nu) (nu^T nu = 1 + sigma/nu0^2),
-   beta (nu^T x) = nu0, hence (P x)_0 = x0 - beta nu^T x = +|x| and
-   (P x)_i = x_i - beta (nu^T x) x_i/nu0 = 0.
-   MISSING (hence _partial): the last step as an index statement over the list nu. *)
-Theorem householder_scalars_partial :
+(* ... and these scalars satisfy beta = 2/(nu^T nu) (nu^T nu = 1 + sigma/nu0^2) and
+   beta (nu^T x) = nu0. *)
+Theorem householder_scalars :
   forall (x0 sigma : R), 0 < sigma ->
   let nu0 := h_nu0 x0 sigma in let beta := h_beta x0 sigma in
   nu0 <> 0 /\
@@ -104,6 +142,38 @@ Theorem householder_scalars_partial :
   beta * (x0 + sigma / nu0) = nu0 /\
   x0 - beta * (x0 + sigma / nu0) = h_mu x0 sigma.
 Proof. exact house_scalars. Qed.
+
+(* householder.Run in list-indexed form, every length: with (beta, nu) = house x and
+   P = I - beta nu nu^T: nu has the length of x, P is orthogonal (beta = 0 or
+   beta nu^T nu = 2), (P x)_i = 0 for 0 < i, |(P x)_0| = |x|_2, and (P x)_0 = +|x|_2
+   whenever the tail of x is not zero (when it is, beta = 0 and P x = x). *)
+Theorem householder_reflects :
+  forall (x0 : R) (xt : list R),
+  let x := x0 :: xt in let n := length x in
+  let beta := fst (house XR x) in let nu := snd (house XR x) in
+  length nu = n /\
+  (beta = 0 \/ beta * dot n nu nu = 2) /\
+  (forall i, (0 < i < n)%nat -> refl_apply n beta nu x i = 0) /\
+  Rabs (refl_apply n beta nu x 0) = norm2 n x /\
+  ((exists k, (k < length xt)%nat /\ nth k xt 0 <> 0) -> refl_apply n beta nu x 0 = norm2 n x).
+Proof. exact house_reflects. Qed.
+
+(* householder.ApplyLeft / ApplyRight are the matrix products P M / M P, all shapes *)
+Theorem householder_apply_left_is_PM :
+  forall (r c : nat) (M : rmat) (beta : R) (nu : list R),
+  dims r c M -> length nu = r ->
+  dims r c (house_left XR M beta nu) /\
+  forall i j, (i < r)%nat -> (j < c)%nat ->
+    G (house_left XR M beta nu) i j = sum_n (fun k => refl beta nu i k * G M k j) r.
+Proof. exact house_left_index. Qed.
+
+Theorem householder_apply_right_is_MP :
+  forall (r c : nat) (M : rmat) (beta : R) (nu : list R),
+  dims r c M -> length nu = c ->
+  dims r c (house_right XR M beta nu) /\
+  forall i j, (i < r)%nat -> (j < c)%nat ->
+    G (house_right XR M beta nu) i j = sum_n (fun k => G M i k * refl beta nu k j) c.
+Proof. exact house_right_index. Qed.
 
 (* 5. Givens: c^2 + s^2 = 1, the rotation zeroes the targeted entry, and the
       applied 2x2 map preserves inner products (is orthogonal). *)
@@ -120,6 +190,162 @@ Theorem givens_apply_orthogonal :
   fst (giv_apply XR c s a1 a2) * fst (giv_apply XR c s b1 b2) +
   snd (giv_apply XR c s a1 a2) * snd (giv_apply XR c s b1 b2) = a1 * b1 + a2 * b2.
 Proof. exact giv_apply_inner. Qed.
+
+(* 6. Gram-Schmidt at /repo HEAD (gram_schmidt_in2), every n x m input with m <= n and
+      every recycled buffer R0: R is upper triangular, Q R = A (UNCONDITIONALLY: a zero
+      column norm forces a zero column, so no rank condition is needed), the result does
+      not depend on the buffer (positive form of the retired finding F-GS-INSITU), and
+      Q^T Q = I when no diagonal entry of R vanishes (linearly independent columns). *)
+Theorem gram_schmidt_R_upper_triangular :
+  forall n m (Am R0 : rmat),
+  dims n m Am -> (1 <= m <= n)%nat -> dims n m R0 ->
+  forall i j, (j < i)%nat -> G (snd (gram_schmidt_in2 XR R0 Am)) i j = 0.
+Proof. exact gs_R_upper_triangular. Qed.
+
+Theorem gram_schmidt_QR_reproduces_A :
+  forall n m (Am R0 : rmat),
+  dims n m Am -> (1 <= m <= n)%nat -> dims n m R0 ->
+  forall i j, (i < n)%nat -> (j < m)%nat ->
+  sum_n (fun k => G (fst (gram_schmidt_in2 XR R0 Am)) i k * G (snd (gram_schmidt_in2 XR R0 Am)) k j) m
+  = G Am i j.
+Proof. exact gs_QR_reproduces_A. Qed.
+
+Theorem gram_schmidt_result_independent_of_buffer :
+  forall n m (Am R0 R0' : rmat),
+  dims n m Am -> (1 <= m <= n)%nat -> dims n m R0 -> dims n m R0' ->
+  gram_schmidt_in2 XR R0 Am = gram_schmidt_in2 XR R0' Am.
+Proof. exact gs_result_independent_of_buffer. Qed.
+
+Theorem gram_schmidt_Q_orthonormal :
+  forall n m (Am R0 : rmat),
+  dims n m Am -> (1 <= m <= n)%nat -> dims n m R0 ->
+  (forall k, (k < m)%nat -> G (snd (gram_schmidt_in2 XR R0 Am)) k k <> 0) ->
+  forall j j', (j < m)%nat -> (j' < m)%nat ->
+  sum_n (fun i => G (fst (gram_schmidt_in2 XR R0 Am)) i j * G (fst (gram_schmidt_in2 XR R0 Am)) i j') n
+  = delta j j'.
+Proof. exact gs_Q_orthonormal. Qed.
+
+(* 7. Hessenberg reduction (ComputeU, with or without SetZero), every n and every square A:
+      U^T U = I, U H U^T = A and H is upper Hessenberg.  Proved by induction over the
+      elimination index: each step is H <- P H P, U <- U P with the embedded reflector P of
+      the current column (reflector lemmas of section 4 + the trace invariant of section 8);
+      the entries the SetZero option overwrites are exactly zero already. *)
+Theorem hessenberg_correct :
+  forall (sz : bool) (A : rmat) (n : nat),
+  dims n n A ->
+  exists H U, hessenberg XR sz true A = (H, Some U) /\
+    dims n n H /\ dims n n U /\
+    (forall i j, (i < n)%nat -> (j < n)%nat -> sum_n (fun k => G U k i * G U k j) n = delta i j) /\
+    (forall i j, (i < n)%nat -> (j < n)%nat ->
+       sum_n (fun a => G U i a * sum_n (fun b => G H a b * G U j b) n) n = G A i j) /\
+    (forall i j, (j + 1 < i)%nat -> G H i j = 0).
+Proof. exact hessenberg_sound. Qed.
+
+(* 7a. Householder bidiagonalisation at HEAD (V accumulated from the right, fix 2c4ff32),
+      every m x n input with n <= m, both accumulators requested: U and V are orthogonal,
+      U B V^T = A (equivalently U^T A V = B) and B is upper bidiagonal.  Same induction as
+      hessenberg_correct with a left and a right reflector per column. *)
+Theorem bidiagonalization_correct :
+  forall (A : rmat) m n, dims m n A -> (1 <= n <= m)%nat ->
+  exists B U Vm, bidiag2 XR true true A = (B, Some U, Some Vm) /\
+    dims m n B /\ dims m m U /\ dims n n Vm /\
+    (forall i j, (i < m)%nat -> (j < m)%nat -> sum_n (fun k => G U k i * G U k j) m = delta i j) /\
+    (forall i j, (i < n)%nat -> (j < n)%nat -> sum_n (fun k => G Vm k i * G Vm k j) n = delta i j) /\
+    (forall i j, (i < m)%nat -> (j < n)%nat ->
+       sum_n (fun a => G U i a * sum_n (fun b => G B a b * G Vm j b) n) m = G A i j) /\
+    (forall i j, (j < i)%nat -> G B i j = 0) /\
+    (forall i j, (i + 1 < j)%nat -> G B i j = 0).
+Proof. exact bidiag_sound_sums. Qed.
+
+(* 7b. Tridiagonalisation at HEAD.  Proved: the guard `beta != 0` introduced by the fix
+      0e89154 (overwrite A(k+1,k), A(k,k+1) by the column norm only then) is true exactly
+      when the column has a non-zero entry below the subdiagonal, i.e. exactly when a
+      reflection is applied (positive, universal form of the retired finding
+      F-TRIDIAG-SIGN; the concrete witness is tridiagonalization_sign_regression below).
+      MISSING (hence _partial): U T U^T = A with T tridiagonal and U orthogonal for the whole
+      loop; it needs the symmetric rank-2 update identity P A P = A - nu w^T - w nu^T
+      (p = beta A nu, w = p - (beta p^T nu / 2) nu) under the invariant "A symmetric",
+      then the same induction as hessenberg_correct with house_reflects for the
+      overwritten entries. *)
+Theorem tridiagonalization_reflects_iff_column_not_reduced_partial :
+  forall (x0 : R) (xt : list R),
+  negb (eqb (nx XR) (fst (house XR (x0 :: xt))) (zero (nx XR))) = true <->
+  exists k, (k < length xt)%nat /\ nth k xt 0 <> 0.
+Proof. exact tridiag2_reflects_iff. Qed.
+
+(* 8. Trace machine for the ITERATIVE routines (QR algorithm, SVD; they are data dependent
+      and have no closed model).  Matrices as functions nat -> nat -> R, [meq r c] = equality
+      on the r x c window, [orth n Q] = Q^T Q = Q Q^T = I.  For EVERY list of steps whose
+      matrices are orthogonal, U H U^T (resp. U B V^T) and the orthogonality of the
+      accumulators are invariant; Givens rotations with c^2+s^2 = 1 and reflectors with
+      beta = 0 or beta nu^T nu = 2 are such steps, and the model's givens_left/givens_right
+      (resp. house_left/house_right, section 4) are the products with these matrices.
+      UNTIED to the Go iteration: the step parameters of a run are not logged (that would
+      need edits of existing files); the per-run decision for the iterative routines stays
+      the exact residual checker C05.Resid. *)
+Theorem qr_trace_invariant :
+  forall (n : nat) (l : list step) (H U : fmatR),
+  Forall (qr_valid n) l ->
+  let st' := qr_run n l (H, U) in
+  meq n n (uhut n st') (uhut n (H, U)) /\
+  meq n n (mmul n (snd st') (tr (snd st'))) (mmul n U (tr U)) /\
+  (orth n U -> orth n (snd st')).
+Proof. exact C05.ProofsTrace.qr_trace_invariant. Qed.
+
+Theorem svd_trace_invariant :
+  forall (m n : nat) (l : list step) (st : svd_state),
+  Forall (svd_valid m n) l ->
+  let st' := svd_run m n l st in
+  meq m n (ubvt m n st') (ubvt m n st) /\
+  meq m m (mmul m (sU st') (tr (sU st'))) (mmul m (sU st) (tr (sU st))) /\
+  meq n n (mmul n (sV st') (tr (sV st'))) (mmul n (sV st) (tr (sV st))) /\
+  (orth m (sU st) -> orth m (sU st')) /\
+  (orth n (sV st) -> orth n (sV st')).
+Proof. exact C05.ProofsTrace.svd_trace_invariant. Qed.
+
+Theorem givens_matrix_orthogonal :
+  forall (c s : R) (i k n : nat),
+  c * c + s * s = 1 -> i <> k -> (i < n)%nat -> (k < n)%nat -> orth n (Gmat c s i k).
+Proof. exact Gmat_orth. Qed.
+
+Theorem reflector_matrix_orthogonal :
+  forall (n : nat) (beta : R) (v : list R),
+  beta = 0 \/ beta * dot n v v = 2 -> orth n (refl beta v).
+Proof. exact refl_orth. Qed.
+
+Theorem givens_apply_left_is_GtM :
+  forall (r cN : nat) (M : rmat) (c s : R) (i k : nat),
+  dims r cN M -> i <> k -> (i < r)%nat -> (k < r)%nat ->
+  dims r cN (givens_left XR M c s i k) /\
+  meq r cN (G (givens_left XR M c s i k)) (mmul r (tr (Gmat c s i k)) (G M)).
+Proof. exact givens_left_is_Gt_mul. Qed.
+
+Theorem givens_apply_right_is_MG :
+  forall (r cN : nat) (M : rmat) (c s : R) (i k : nat),
+  dims r cN M -> i <> k -> (i < cN)%nat -> (k < cN)%nat ->
+  dims r cN (givens_right XR M c s i k) /\
+  meq r cN (G (givens_right XR M c s i k)) (mmul cN (G M) (Gmat c s i k)).
+Proof. exact givens_right_is_mul_G. Qed.
+
+Theorem concrete_trace_invariant_qr :
+  forall (n : nat) (l : list cstep) (H U : fmatR),
+  Forall (cvalid n) l ->
+  let st' := qr_run n (qr_steps_of l) (H, U) in
+  meq n n (uhut n st') (uhut n (H, U)) /\
+  meq n n (mmul n (snd st') (tr (snd st'))) (mmul n U (tr U)) /\
+  (orth n U -> orth n (snd st')).
+Proof. exact concrete_qr_trace_invariant. Qed.
+
+Theorem concrete_trace_invariant_svd :
+  forall (m n : nat) (l : list (side * cstep)) (st : svd_state),
+  Forall (csvd_valid m n) l ->
+  let st' := svd_run m n (svd_steps_of l) st in
+  meq m n (ubvt m n st') (ubvt m n st) /\
+  meq m m (mmul m (sU st') (tr (sU st'))) (mmul m (sU st) (tr (sU st))) /\
+  meq n n (mmul n (sV st') (tr (sV st'))) (mmul n (sV st) (tr (sV st))) /\
+  (orth m (sU st) -> orth m (sU st')) /\
+  (orth n (sV st) -> orth n (sV st')).
+Proof. exact concrete_svd_trace_invariant. Qed.
 
 (* the hypotheses are satisfiable by a non-trivial instance *)
 Example cholesky_hyps_satisfiable :
